@@ -448,6 +448,10 @@ class CFG:
     def guards(self, nid, exc=False):
         """Branch conditions that dominate nid: list of (test ast, label)."""
         out = []
+        if not exc and nid not in self.reach([self.entry], exc=False, include_src=True):
+            # code reachable only through an exception edge (handler bodies): without those
+            # edges every test would dominate it vacuously
+            exc = True
         for n in self.nodes:
             if n.kind != "test":
                 continue
